@@ -36,6 +36,26 @@ MUT = ('update', 'pop', 'clear', 'setdefault', 'popitem', '__setitem__', '__deli
 
 def check(ctx, rep):
     ini = ctx.fn(CP + ':Codepage.__init__')
+    # table keys and looked-up text are brought to the same Unicode normal form: the lookup side normalises
+    # every input string, so every table entry (of any length) must be normalised the same way
+    def norm_calls(fn):
+        return [c for c in own_nodes(fn) if isinstance(c, ast.Call) and norm(c.func) == 'unicodedata.normalize' and len(c.args) == 2
+                and isinstance(c.args[0], ast.Constant)]
+    su = ctx.fn(CP + ':Codepage._split_unicode')
+    lk = norm_calls(su)
+    tb = norm_calls(ini)
+    loops = [n for n in ini.body if isinstance(n, ast.For) and 'codepage_dict' in norm(n.iter)]
+    ok = len(lk) == 1 and len(tb) == 1 and lk[0].args[0].value == tb[0].args[0].value and len(loops) == 1
+    detail = ''
+    if ok:
+        st = tb[0]
+        while not isinstance(st, ast.stmt):
+            st = st._parent
+        ok = st in loops[0].body and isinstance(st, ast.Assign) and norm(st.targets[0]) == norm(tb[0].args[1]) \
+            and norm(st.targets[0]) == norm(loops[0].target.elts[1])
+        detail = 'table entries are normalised only conditionally (or not the loop variable itself): entries that are not in normal form can be decoded but never encoded again'
+    rep.ob('normal-form.table-and-lookup-agree', 'every codepage table entry is normalised (%s) exactly as _split_unicode normalises its input' % (
+        lk[0].args[0].value if lk else '?'), ok, detail, ctx.where(ini))
     a = dict((norm(x.targets[0]), norm(x.value)) for x in own_nodes(ini) if isinstance(x, ast.Assign))
     rep.ob('inverse.derived', '_unicode_to_cp is the inverse of _cp_to_unicode', a.get('self._unicode_to_cp') == 'dict((reversed(_item) for _item in iteritems(self._cp_to_unicode)))',
            a.get('self._unicode_to_cp', ''), ctx.where(ini))
@@ -94,6 +114,7 @@ def variants(ctx):
         return lambda tree: f(mu.find_def(tree, f_name))
 
     return [
+        Va('only-multi-codepoint-entries-normalised', 'break', CP, in_fn('Codepage.__init__', _conditional_normalise), expect='normal-form'),
         Va('inverse-built-from-argument', 'break', CP,
            in_fn('Codepage.__init__', lambda fn: mu.replace_expr(fn, mu.text_is('iteritems(self._cp_to_unicode)'), 'iteritems(codepage_dict)')), expect='inverse.derived'),
         Va('inverse-before-fill', 'break', CP, in_fn('Codepage.__init__', _invert_early), expect='inverse.after'),
@@ -126,3 +147,13 @@ def _swap_try(fn):
     mu.replace_expr(b, mu.text_is('self._unicode_to_cp[uc]'), 'self._inverse_substitutes[uc]')
     b.handlers[0].body = [ast.parse("return uc.encode('ascii', errors=errors)").body[0]]
     return True
+
+
+def _conditional_normalise(fn):
+    for lp in fn.body:
+        if isinstance(lp, ast.For) and 'codepage_dict' in norm(lp.iter):
+            for i, st in enumerate(lp.body):
+                if isinstance(st, ast.Assign) and 'unicodedata.normalize' in norm(st.value):
+                    lp.body[i] = ast.If(test=ast.parse('len(unicode_cluster) > 1', mode='eval').body, body=[st], orelse=[])
+                    return True
+    return False
